@@ -900,7 +900,10 @@ def hull_ops(ad, l, rng):
     first = ad.interior_point(rng, l)
     if first is None:
         return
-    nd = len(first[1]) if ad.spec["kind"] == "Bal" else len(first)
+    q, a = first, ad
+    while a.spec["kind"] in ("Bal", "DS"):      # down to the innermost learner's point (wrappers may nest)
+        q, a = (q[1] if a.spec["kind"] == "Bal" else q), a.child
+    nd = len(q)
     out = yield ["tell", plain(first), plain(ad.first_value(rng, first, 0.2))]
     for _ in range(nd + rng.randint(1, 3) + (nd + 1 if ad.spec["kind"] == "Bal" else 0)):
         p = ad.interior_point(rng, l)
